@@ -65,8 +65,8 @@ def _task(kv):
     s0 = I.steps
     rec = {'root': key, 'variant': variant, 'incomplete': None, 'contracts': [], 'exits': 0}
     try:
-        if variant == 'internal':
-            st, args, res = I.run_internal(key)
+        if variant is not None and variant.startswith('internal'):
+            st, args, res = I.run_internal(key, variant.split(':', 1)[1] if ':' in variant else None)
         else:
             st, args, res = I.run_root(key, variant)
         rec['exits'] = len(res)
@@ -105,7 +105,7 @@ def analyze(facts_path, out_path, jobs=None, only=''):
     roots = [k for k in spec.root_keys() if only in k]
     roots.sort(key=_weight)
     roots = [(k, v) for k in roots for v in spec.root_variants(k)]
-    roots += [(k, 'internal') for k in spec.internal_roots() if only in k]
+    roots += [(k, 'internal' + (':' + v if v else '')) for k in spec.internal_roots() if only in k for v in spec.internal_variants(k)]
     jobs = jobs or max(1, min(15, (os.cpu_count() or 2) - 1))
     sys.setrecursionlimit(20000)
     results = []
